@@ -175,7 +175,7 @@ package authboss
 //@   ensures failed_flush_releases_nothing: each CS.WriteState(_, _, _, _) -> ?e => e != nil ==> (!emits Write(_, _) && result.1 == e)
 //@
 //@ func (*Authboss).LoadClientState
-//@   property C11
+//@   property C11 C09 C10
 //@   requires a.Config.Storage.SessionState != a.Config.Storage.CookieState
 //@   -- what was read at the start of the request is what handlers see (context) and what the
 //@   -- flush later hands to the store (writer), for each store separately
@@ -191,11 +191,11 @@ package authboss
 //@   ensures read_error_outcome: each CS.ReadState(_, _) -> (_, ?e) => e != nil ==> result.1 == e
 //@
 //@ func (*Authboss).LoadClientStateMiddleware#1
-//@   property C11 C17 C20
+//@   property C11 C17 C20 C01 C09 C10
 //@   -- (C20: every request gets a writer of its own - not the caller's, not a recycled one)
 //@   -- the wrapped handler gets the flushing writer and the request that carries the state
 //@   -- read at the start; a read failure answers 500 without running it
-//@   ensures[C11,C20] wraps_writer: each Next.ServeHTTP(_, ?w2, _) => w2 != w
+//@   ensures[C11,C20,C01,C09,C10] wraps_writer: each Next.ServeHTTP(_, ?w2, _) => w2 != w
 //@   ensures[C11] read_failure_500: (each CS.ReadState(_, _) -> (_, ?e) => e != nil ==> (after WriteHeader(_, 500) && !emits Next.ServeHTTP(_, _, _)))
 //@   ensures[C17] no_secret_leak: secrets_clean
 //@
@@ -237,6 +237,7 @@ package authboss
 //@ func (*Events).call
 //@   property C01 C02 C03 C04 C06 C16 C18
 //@   option summary FireBefore / FireAfter use this contract
+//@   option bounded events_call chains of 0..4 handlers, every handled/error pattern, nil/plain/cancelled/expired requests, before and after (every handler runs unless an earlier one failed: liveness the invariants cannot state)
 //@   invariant loop#1 index_in_range: rangeindex >= -1 && rangeindex < len(evs)
 //@   invariant loop#1 errors_end_the_loop: each CallFuncValue(_, _, _, _) -> (_, ?e) => e == nil
 //@   invariant loop#1 handled_sticks: each CallFuncValue(_, _, _, ?hd) -> (?h, ?e) => (e == nil ==> ((hd || h) ==> handled))
